@@ -243,9 +243,11 @@ class LeaderNode(Entity):
         )
 
         # Apply locally
-        yield from self._store.put(key, value)
+        # Record the version before waiting for the store: a concurrent version that
+        # arrives meanwhile must be resolved against this one, not silently replaced.
         self._versions[key] = versioned
         self._merkle.update(key, value)
+        yield from self._store.put(key, value)
 
         # Replicate to all peers
         events = []
@@ -318,9 +320,9 @@ class LeaderNode(Entity):
 
         if existing is None:
             # No local version — apply
-            yield from self._store.put(key, value)
             self._versions[key] = incoming
             self._merkle.update(key, value)
+            yield from self._store.put(key, value)
         else:
             # Compare vector clocks
             existing_vc = existing.vector_clock or {}
@@ -328,9 +330,9 @@ class LeaderNode(Entity):
 
             if _vc_dominates(incoming_vc, existing_vc):
                 # Incoming is newer — apply
-                yield from self._store.put(key, value)
                 self._versions[key] = incoming
                 self._merkle.update(key, value)
+                yield from self._store.put(key, value)
             elif _vc_dominates(existing_vc, incoming_vc):
                 # Existing is newer — discard
                 pass
@@ -341,9 +343,9 @@ class LeaderNode(Entity):
                 self._conflicts_resolved += 1
 
                 if winner is not existing:
-                    yield from self._store.put(key, winner.value)
                     self._versions[key] = winner
                     self._merkle.update(key, winner.value)
+                    yield from self._store.put(key, winner.value)
 
         return None
 
@@ -411,26 +413,26 @@ class LeaderNode(Entity):
             )
             existing = self._versions.get(key)
             if existing is None:
-                yield from self._store.put(key, remote_vv.value)
                 self._versions[key] = remote_vv
                 self._merkle.update(key, remote_vv.value)
+                yield from self._store.put(key, remote_vv.value)
                 self._anti_entropy_keys_repaired += 1
             else:
                 existing_vc = existing.vector_clock or {}
                 remote_vc = remote_vv.vector_clock or {}
                 if _vc_dominates(remote_vc, existing_vc):
-                    yield from self._store.put(key, remote_vv.value)
                     self._versions[key] = remote_vv
                     self._merkle.update(key, remote_vv.value)
+                    yield from self._store.put(key, remote_vv.value)
                     self._anti_entropy_keys_repaired += 1
                 elif not _vc_dominates(existing_vc, remote_vc):
                     self._conflicts_detected += 1
                     winner = self._resolver.resolve(key, [existing, remote_vv])
                     self._conflicts_resolved += 1
                     if winner is not existing:
-                        yield from self._store.put(key, winner.value)
                         self._versions[key] = winner
                         self._merkle.update(key, winner.value)
+                        yield from self._store.put(key, winner.value)
                         self._anti_entropy_keys_repaired += 1
 
         if remote_hash == self._merkle.root_hash:
@@ -485,18 +487,18 @@ class LeaderNode(Entity):
             existing = self._versions.get(key)
             if existing is None:
                 # New key — apply
-                yield from self._store.put(key, remote_vv.value)
                 self._versions[key] = remote_vv
                 self._merkle.update(key, remote_vv.value)
+                yield from self._store.put(key, remote_vv.value)
                 self._anti_entropy_keys_repaired += 1
             else:
                 existing_vc = existing.vector_clock or {}
                 remote_vc = remote_vv.vector_clock or {}
 
                 if _vc_dominates(remote_vc, existing_vc):
-                    yield from self._store.put(key, remote_vv.value)
                     self._versions[key] = remote_vv
                     self._merkle.update(key, remote_vv.value)
+                    yield from self._store.put(key, remote_vv.value)
                     self._anti_entropy_keys_repaired += 1
                 elif not _vc_dominates(existing_vc, remote_vc):
                     # Concurrent — resolve
@@ -504,9 +506,9 @@ class LeaderNode(Entity):
                     winner = self._resolver.resolve(key, [existing, remote_vv])
                     self._conflicts_resolved += 1
                     if winner is not existing:
-                        yield from self._store.put(key, winner.value)
                         self._versions[key] = winner
                         self._merkle.update(key, winner.value)
+                        yield from self._store.put(key, winner.value)
                         self._anti_entropy_keys_repaired += 1
 
         return None
